@@ -141,15 +141,21 @@ func sameSet(a, b []string) bool {
 	return true
 }
 
-// execChain runs the client discovery chain of one "chain" case.
+// execChain runs the client discovery chain of one "chain" case on a
+// handler of its own.
 func execChain(c *fw.Ctx, cs *Case) {
 	if !cs.valid() {
 		c.Inconclusive("C12: generated a case outside the domain")
 		return
 	}
-	r := build(cs)
+	r := build(cs, "")
 	ip := &doubles.InProc{Handler: r.h, Record: true}
-	hc := &http.Client{Transport: ip}
+	runChain(c, cs, r, ip, &http.Client{Transport: ip}, nil, true)
+}
+
+// runChain runs the chain cs describes for r's user through hc / ip. other,
+// when set, is another user served by the same handler.
+func runChain(c *fw.Ctx, cs *Case, r *rig, ip *doubles.InProc, hc *http.Client, other *rig, journal bool) {
 	var entry string
 	switch cs.Entry {
 	case "well-known":
@@ -171,12 +177,22 @@ func execChain(c *fw.Ctx, cs *Case) {
 		return
 	}
 	ctx := context.Background()
-	c.Journal(cs)
-	defer c.JournalDone()
-
+	if journal {
+		c.Journal(cs)
+		defer c.JournalDone()
+	}
+	multi := ""
+	if r.session != nil {
+		multi = "multi-user,"
+	}
+	var leaks []string
 	wire := func() []string {
 		var l []string
+		leaks = nil
 		for _, e := range ip.Exchanges() {
+			if other != nil {
+				leaks = append(leaks, other.exposureTo(&observed{status: e.Status, hdr: e.RespHdr, body: e.RespBody}, e.Path)...)
+			}
 			ln := fmt.Sprintf("%s %s -> %d", e.Method, e.Target, e.Status)
 			if loc := e.RespHdr.Get("Location"); loc != "" {
 				ln += fmt.Sprintf(" Location: %q", loc)
@@ -200,9 +216,9 @@ func execChain(c *fw.Ctx, cs *Case) {
 		w := wire()
 		c.Eval(1)
 		cls := nameClass(about)
-		keyBase := fmt.Sprintf("%s|chain:%s|entry=%s,names=%s|", cs.Server, name, entryClass(name, cs.Entry), cls)
+		keyBase := fmt.Sprintf("%s|chain:%s|%sentry=%s,names=%s|", cs.Server, name, multi, entryClass(name, cs.Entry), cls)
 		wit := func() map[string]interface{} {
-			return map[string]interface{}{"case": cs, "step": name, "endpoint": endpoint, "argument": fmt.Sprintf("%q", about),
+			return map[string]interface{}{"case": cs, "session": r.session, "user": r.user, "step": name, "endpoint": endpoint, "argument": fmt.Sprintf("%q", about),
 				"want": fmt.Sprintf("%q", want), "got": fmt.Sprintf("%q", got), "err": fw.ErrString(err), "wire": w, "backend_calls": callList(calls)}
 		}
 		ok := true
@@ -220,6 +236,10 @@ func execChain(c *fw.Ctx, cs *Case) {
 			ok = false
 			c.Report(keyBase+"paths-differ", fmt.Sprintf("discovery step %s returned %q, backend paths are %q", name, got, want), wit())
 		}
+		if len(leaks) > 0 {
+			ok = false
+			c.Report(keyBase+"exposes-another-user", fmt.Sprintf("responses to user %s during discovery step %s show resources of user %s: %q", r.user, name, other.user, leaks), wit())
+		}
 		if needOp != "" && !panicked {
 			var an []anomaly
 			requireOp(calls, needOp, needPath, &an)
@@ -233,9 +253,12 @@ func execChain(c *fw.Ctx, cs *Case) {
 			res = "deviates"
 		}
 		c.Observe("chain_steps", fmt.Sprintf("%s|%s|entry=%s|%s", cs.Server, name, cs.Entry, res), 1)
+		if r.session != nil {
+			c.Observe("multi_user_chain_steps", fmt.Sprintf("%s|user %s|%s|%s", cs.Server, r.user, name, res), 1)
+		}
 		c.Observe("chain_name_class", fmt.Sprintf("%s|%s|%s", name, cls, res), 1)
-		c.Distinct(fmt.Sprintf("chain|%s|%s|%s|p%d|%v|%v%v%v|%s", cs.Server, name, cs.Entry, len(cs.Prefix), cs.PrefixSlash,
-			cs.Layout.PSlash, cs.Layout.HSlash, cs.Layout.CSlash, cls))
+		c.Distinct(fmt.Sprintf("chain|%s|%s|%s|p%d|%v|%v%v%v|%s|%s", cs.Server, name, cs.Entry, len(cs.Prefix), cs.PrefixSlash,
+			cs.Layout.PSlash, cs.Layout.HSlash, cs.Layout.CSlash, cls, multi))
 		if c.WantSample() && name == "collections" && len(cs.Prefix) >= 2 && cls != "plain" {
 			c.Sample(wit())
 		}
